@@ -279,6 +279,9 @@ def preserves_choice_order(choices: list[ChoiceChoice]) -> bool:
                 # The empty literal always matches. Nothing may move past it.
                 if singles or insensitive:
                     return False
+                if choice.case == ChoiceCase.INSENSITIVE:
+                    # It is tried after every case sensitive literal.
+                    insensitive.append(value)
                 continue
 
             if any(_matches_char(single, value[0], choice.case) for single in singles):
